@@ -1,10 +1,12 @@
 import MoSql.Lemmas.ExprSem
 import MoSql.Lemmas.LevelsOK
 import MoSql.Gen.Levels
+import MoSql.Lemmas.ScrubAtoms
 /-!
 C05 — an accepted statement loses no identifier, number or string.
 The one place where the library can answer while forgetting part of its input is
 `make_tree` (it returns `flat_tokens[0]` and drops the rest when nothing reduces any more).
+The simplification that follows (`utils.scrub`, which "removes None-valued entries") is shown to remove nothing else.
 -/
 namespace MoSql.Props.C05
 open MoSql MoSql.Infix
@@ -32,5 +34,25 @@ theorem prefix_right_of_tighter_full_false :
       [.val (.str "a"), .op ⟨(Gen.opInfo' "+").id, "add", .str "+"⟩,
        .op ⟨(Gen.opInfo' "u~").id, "binary_not", .str "~"⟩, .val (.str "b")]).leftover.length = 1 := by
   decide
+
+/-- **Simplification loses no content**: every string, number and boolean leaf of the raw tree the parse actions
+built is a leaf of what `scrub` returns — for every raw tree of any size, both `calls=` modes and every `fmap` —
+provided no call carries a keyword argument named like the (renamed) call itself (`kwargs[op] = args` would
+overwrite it).  What `scrub` removes is `None`, empty lists, and list / Group wrappers. -/
+theorem scrub_loses_no_content (c : Cfg) (r : Raw) (h : Scrub.noClash c r = true) :
+    ∀ a ∈ Scrub.rAtoms r, a ∈ Scrub.jAtoms (Scrub.scrub c r) :=
+  Scrub.scrub_keeps_atoms c r h
+
+/-- the hypothesis is met by a non-trivial tree, whose content is indeed kept -/
+example :
+    let r : Raw := .call "f" (.list [.str "x", .none, .grp (.int 7)]) [("g", .call "h" (.flt "1.5") []), ("k", .none)]
+    Scrub.noClash {} r = true ∧ Scrub.rAtoms r = [.s "x", .i 7, .f "1.5"]
+      ∧ Scrub.jAtoms (Scrub.scrub {} r) = [.f "1.5", .s "x", .i 7] := by decide
+
+/-- without the hypothesis the statement is false in the default mode: `Call("f", ["x"], {"f": 5})` simplifies to
+`{"f": "x"}` and the 5 is gone (replayed on the real `scrub`: the same); `calls=normal_op` keeps both -/
+theorem scrub_clash_loses_content :
+    let r : Raw := .call "f" (.str "x") [("f", .int 5)]
+    Scrub.Atom.i 5 ∈ Scrub.rAtoms r ∧ Scrub.Atom.i 5 ∉ Scrub.jAtoms (Scrub.scrub {} r) := by decide
 
 end MoSql.Props.C05
